@@ -85,6 +85,8 @@ def cases(tier):
             for ws in (True, False):
                 for inc in (0, 1, -1):
                     yield ('window', kind, n, ws, inc)
+    for n in (2, 3, 4):
+        yield ('window-hier', n)
 
 
 def universe(tier):
@@ -517,8 +519,46 @@ def run_window(case, ctx):
 run_window.sizes = 5
 
 
+def run_window_hier(case, ctx):
+    """windows over Frames one of whose axes is hierarchical: the function-application form returns one result per anchor, labelled by the anchor labels of the
+    axis the windows move along (a hierarchy when that axis is one), whatever the other axis is"""
+    _, n = case
+    flat = ['r%d' % i for i in range(n)]
+    hier = [('g%d' % (i // 2), 'r%d' % i) for i in range(n)]
+    other_flat, other_hier = ['p', 'q'], [('o', 'p'), ('o', 'q')]
+    for moving_hier, other_is_hier, axis, size in itertools.product((False, True), (False, True), (0, 1), (1, 2, 3)):
+        if size > n:
+            continue
+        moving = sf.IndexHierarchy.from_labels(hier) if moving_hier else sf.Index(flat)
+        other = sf.IndexHierarchy.from_labels(other_hier) if other_is_hier else sf.Index(other_flat)
+        data = np.arange(n * 2).reshape(n, 2)
+        f = sf.Frame(data, index=moving, columns=other) if axis == 0 else sf.Frame(data.T, index=other, columns=moving)
+        ctx.state(('window-hier', n, moving_hier, other_is_hier, axis, size))
+        ctx.nontriv(('window-hier', n, moving_hier, other_is_hier, axis, size))
+        info = dict(n=n, moving_axis_hierarchical=moving_hier, other_axis_hierarchical=other_is_hier, axis=axis, size=size)
+        mlabels = hier if moving_hier else flat
+        exp = [(mlabels[i], list(range(i - size + 1, i + 1))) for i in range(size - 1, n)]
+        for form in ('iter_window', 'iter_window_array', 'iter_window_items', 'iter_window_array_items'):
+            ctx.transition()
+            try:
+                it = getattr(f, form)(size=size, axis=axis)
+                if form.endswith('_items'):
+                    r = it.apply(lambda k, w: int(w.shape[axis]))
+                else:
+                    r = it.apply(lambda w: int(w.shape[axis]))
+                got_labels = [tuple(l) if moving_hier else l for l in r.index]
+                if got_labels != [l for l, _ in exp] or r.values.tolist() != [size] * len(exp) or isinstance(r.index, sf.IndexHierarchy) != moving_hier:
+                    ctx.violation(f'window-hier|{form}.apply|labels-or-values', **info, got=(type(r.index).__name__, got_labels, r.values.tolist()), expected=[l for l, _ in exp])
+            except Exception as e:
+                ctx.violation(f'window-hier|{form}.apply|raises|{type(e).__name__}', **info, error=repr(e))
+    ctx.outcome('window-hier')
+    ctx.sample({'family': 'window-hier', 'n': n}, limit=1)
+
+
 def run_case(case, ctx):
     fam = case[0]
+    if fam == 'window-hier':
+        return run_window_hier(case, ctx)
     if fam == 'series_many_keys':
         run_series_many_keys(case, ctx)
     elif fam == 'series_group':
